@@ -49,8 +49,8 @@ Definition write_var_i64 (z : Z) : option (list N) :=
     Some (((if 63 <? v then 128 else 0) + (if neg then 64 else 0) + v mod 64) :: write_var_i64_tail 10 (v / 64)).
 
 (* ---- read_var_i64 / read_signed: `num` is the i64 bit pattern (an N below 2^64) ---- *)
-Definition shl_i64_checked (x len : N) : option N :=
-  if 64 <=? len then None else Some ((N.shiftl x len) mod two64).
+(* i64::wrapping_shl: the shift amount is masked to 6 bits, the result truncated to 64 bits *)
+Definition shl_i64_checked (x len : N) : option N := Some ((N.shiftl x (len mod 64)) mod two64).
 
 Fixpoint read_var_i64_loop (limit : N) (bs : list N) (num len : N) (neg : bool) : res (N * bool) :=
   match bs with
@@ -68,9 +68,10 @@ Fixpoint read_var_i64_loop (limit : N) (bs : list N) (num len : N) (neg : bool) 
   end.
 
 (* interpret a 64-bit pattern as i64, negate when flagged; `-num` panics on i64::MIN *)
+(* wrapping_neg: i64::MIN negates to itself *)
 Definition finish_i64 (pat : N) (neg : bool) : option Z :=
   let z := if pat <? two63 then Z.of_N pat else (Z.of_N pat - Z.of_N two64)%Z in
-  if neg then (if pat =? two63 then None else Some (- z)%Z) else Some z.
+  if neg then (if pat =? two63 then Some z else Some (- z)%Z) else Some z.
 
 Definition read_var_i64_gen (limit : N) (bs : list N) : res (Z * bool) :=
   match bs with
@@ -93,4 +94,7 @@ Definition write_buf (b : list N) : list N := write_var_usize (N.of_nat (length 
 Definition read_buf (bs : list N) : res (list N) :=
   let* (len, rest) := read_var_u32 bs in read_exact len rest.
 Definition write_string := write_buf.
-Definition read_string := read_buf.     (* from_utf8_unchecked: no validation *)
+(* read_string: read_buf + std::str::from_utf8 *)
+Definition read_string (bs : list N) : res (list N) :=
+  let* (s, rest) := read_buf bs in
+  if utf8_valid s then Ok s rest else Err UnexpectedValue.
